@@ -112,7 +112,8 @@ prop('C19', contracts=[],
      technique='not decided deductively yet: bounded path grammar on real directory trees and exhaustive endpoint x method x caller x hook table (labelled bounded)',
      explanation='BOUNDED ONLY: containment of fe._static, anonymous access limited to the allow-list, fail-closed hook',
      assumptions=[])
-prop('C20', contracts=[],
-     technique='not decided deductively yet: bounded clock sweep 2023-12-25..2028-03-05 for every dow/dom/date/boot specification (labelled bounded)',
-     explanation='BOUNDED ONLY: _delay never fails, matches the specification and lies within one period; due events queue their node; recurrence',
-     assumptions=[A1])
+prop('C20', contracts=['c20_delay'],
+     technique=TECH + 'schedule._delay proved against a calendar specification in linear integer arithmetic for every instant and every accepted moment; defer/recurrence by the bounded clock sweep',
+     explanation='PROVED for every clock instant of years 2..9000 and every moment rule_10 accepts (dom 1..31, dow 0..6): _delay raises only _DelayNotKnowableError and only for a boot event already fired (no ValueError from the datetime constructor), a boot event gets delay 0 and is recorded, a day-of-week moment has that weekday and time and lies within (-1 d, 7 d], a day-of-month moment is the day (clamped to the month length) of the current month if not yet passed else of the next, at that time, within (-1 d, 31 d], a dated moment is that date and time. Counter-models are replayed on the real function under an injected clock. BOUNDED ONLY: defer queues due events for all targets, boot once per process, recurrence.',
+     trusted_base=['datetime/timedelta modelled as (day number, microsecond of day) over the proleptic Gregorian calendar; calendar.monthrange as days-in-month'],
+     assumptions=[A1, 'clock range 0002-01-01 .. 9000-12-31'])
